@@ -476,6 +476,35 @@ pub fn main(args: &[String]) {
         let cd = rand_calldata(&mut rng);
         scheds.push(mk("initcall", &format!("initcall:{i}"), c, cd, 1500));
     }
+    // the stack-limit edge: k one-word pushes (k = 1023, 1024), then ONE instruction of every kind, then code that
+    // still executes if the instruction wrongly succeeded (so that the next recorded step shows the depth).
+    // --edge N: N of the 256 opcodes per run, always including every instruction that pops nothing and pushes one
+    // word (the zero-argument environment instructions, PUSH0..PUSH32, DUP1..DUP16, PC, MSIZE, GAS)
+    {
+        let n_edge = arg_u64(args, "--edge", 0);
+        if n_edge > 0 {
+            let mut ops: Vec<u8> = vec![0x30, 0x32, 0x33, 0x34, 0x36, 0x38, 0x3a, 0x3d, 0x41, 0x42, 0x43, 0x44, 0x45, 0x46,
+                                        0x47, 0x48, 0x4a, 0x58, 0x59, 0x5a, 0x5f];
+            ops.extend(0x60u8..=0x7f);
+            ops.extend(0x80u8..=0x8f);
+            let mut rest: Vec<u8> = (0u16..256).map(|x| x as u8).filter(|b| !ops.contains(b)).collect();
+            // rotate the remaining opcodes by the seed so that successive seeds cover all of them
+            let r = (seed as usize * 37) % rest.len();
+            rest.rotate_left(r);
+            ops.extend(rest);
+            ops.truncate(n_edge as usize);
+            let depths: &[usize] = if n_edge >= 256 { &[1024, 1023] } else { &[1024] };
+            for &k in depths {
+                for &op in &ops {
+                    let mut c = vec![0x5fu8; k];
+                    c.push(op);
+                    c.extend([0x5bu8; 33]);
+                    c.push(0x00);
+                    scheds.push(mk("call", &format!("edge:{k}:{op:02x}"), c, vec![], 1500));
+                }
+            }
+        }
+    }
     for i in 0..arg_u64(args, "--static", 0) {
         let code = gen_target(&mut rng);
         let payload = rand_calldata(&mut rng);
